@@ -253,7 +253,13 @@ def _str_escape(s: str) -> str:
     return s
 
 def _bytes_escape(b: bytes) -> str:
-    return repr(b)[2:-1]
+    r = repr(b)
+    body = r[2:-1]
+    if r[1] == '"':
+        # repr() uses double quotes when the bytes contain single quotes (and no double quotes), 
+        # but the value is always presented inside simple quotes.
+        body = body.replace("'", r"\'")
+    return body
 
 class PyvalColorizer:
     """
